@@ -204,4 +204,37 @@ example : let j : JVal := .leaf { kind := .int, v := .str (strBytes "x") }
     samapLcAccepts false j [] (samapLen j []) = false := by decide
 end NonVacuity
 
+/-! ### The tree as it is now
+
+After `fix: StringAnyMapInspector.Capacity descended into Length` the only switch of this inspector left on in
+`LibCfg.repo` concerns nil pointers (C02). Get, Length, Set and Copy never consulted a switch; Capacity of the
+current tree is the repaired Capacity. -/
+section CurrentTree
+
+theorem cap_repo_eq (p : List Bytes) : ∀ (j : JVal), samapCap LibCfg.repo j p = samapCap LibCfg.fixed j p := by
+  induction p with
+  | nil => intro j; rfl
+  | cons k rest ih =>
+    intro j
+    unfold samapCap
+    cases j with
+    | map hold nilAt mapNil ks vs =>
+      simp only []
+      split
+      · rfl
+      · cases JVal.lookup ks vs k with
+        | none => rfl
+        | some x =>
+          have h1 : LibCfg.repo.samapCapIsLen = false := rfl
+          have h2 : LibCfg.fixed.samapCapIsLen = false := rfl
+          simp only [h1, h2, Bool.false_eq_true, if_false]
+          exact ih x
+    | _ => rfl
+
+theorem cap_current (j : JVal) (p : List Bytes) (hw : JLeavesOK j = true) :
+    samapLcAccepts true j p (samapCap LibCfg.repo j p) = true := by
+  rw [cap_repo_eq p j]; exact cap_correct j p hw
+
+end CurrentTree
+
 end Inspector.C18
